@@ -338,6 +338,68 @@ Definition wms_featureinfo (tree : list wlayer) (qlayers layers : list Z) (cb : 
       end
     end.
 
+(* ================================================================== WMS capabilities (FilteredRootLayer) *)
+
+Definition w_name (w : wlayer) : Z := match w with WLeaf n _ _ _ => n | WGroup n _ _ => n end.
+
+Definition truthy_f (f : fval) : bool := match f with F_true | F_truthy => true | _ => false end.
+
+(* FilteredRootLayer.layer_permitted: the 'map' entry is truthy (no `is True` here), the layer's limited_to and the
+   global one intersect the extent of the layer.  isect g n = coverage g intersects the extent of layer n. *)
+Definition cap_permitted (r : cbres) (isect : Z -> Z -> bool) (n : Z) : bool :=
+  match assoc n (r_layers r) with
+  | Some p =>
+    truthy_f (p_map p)
+    && (match p_lim p with Some g => isect g n | None => true end)
+    && (match r_lim r with Some g => isect g n | None => true end)
+  | None => false
+  end.
+
+(* the names a child layer contributes to the document (FilteredRootLayer.layers, recursively): nothing when it is
+   not permitted, or when it is a group without own sources of which no sub layer is left *)
+Fixpoint cap_child (perm : Z -> bool) (w : wlayer) : list Z :=
+  match w with
+  | WLeaf n _ _ _ => if perm n then [n] else []
+  | WGroup n this ch =>
+    if perm n then
+      let sub := flat_map (cap_child perm) ch in
+      match this, sub with
+      | None, [] => []
+      | _, _ => n :: sub
+      end
+    else []
+  end.
+
+(* every layer, for the unfiltered root *)
+Fixpoint cap_all (w : wlayer) : list Z :=
+  match w with
+  | WLeaf n _ _ _ => [n]
+  | WGroup n _ ch => n :: flat_map cap_all ch
+  end.
+
+Inductive cap_out := CAP_401 | CAP_403 | CAP_ok (names : list Z).
+
+(* WMSServer.authorized_capability_layers + the <Layer><Name> elements of the document, in document order, for a
+   root layer without name whose children are `tree` (the root itself is never filtered) *)
+Definition wms_capabilities (tree : list wlayer) (cb : option cbres) (isect : Z -> Z -> bool) : cap_out :=
+  match cb with
+  | None => CAP_ok (flat_map cap_all tree)
+  | Some r =>
+    match r_kind r with
+    | A_unauth => CAP_401
+    | A_full => CAP_ok (flat_map cap_all tree)
+    | A_partial => CAP_ok (flat_map (cap_child (cap_permitted r isect)) tree)
+    | _ => CAP_403
+    end
+  end.
+
+Definition cap_out_eqb (a b : cap_out) : bool :=
+  match a, b with
+  | CAP_401, CAP_401 | CAP_403, CAP_403 => true
+  | CAP_ok x, CAP_ok y => list_eqb Z.eqb x y
+  | _, _ => false
+  end.
+
 (* ================================================================== tile services *)
 
 (* lims: the geometries the request is limited to, all of them apply (util/coverage.py load_limited_to_all:
